@@ -113,7 +113,10 @@ package minersc
 //@   loop 2 header "for i, sn := range newNodes"
 //@   loop 2 invariant -1 <= s && s <= $idx && e == len(newNodes)
 //@   loop 2 invariant s >= 0 ==> newNodes[s].TotalStaked == stake
-//@   loop 2 invariant forall k in 0..(s >= 0 ? s : $idx + 1) :: newNodes[k].TotalStaked != stake
+// (two plain ranges instead of one range with a conditional bound: that form discharged in 0.3 s or not
+// within 60 s depending on the order the VC happened to be written in)
+//@   loop 2 invariant s < 0 ==> (forall k in 0..$idx+1 :: newNodes[k].TotalStaked != stake)
+//@   loop 2 invariant s >= 0 ==> (forall k in 0..s :: newNodes[k].TotalStaked != stake)
 
 // The callers of reduce. A final miner selection always goes through reduce, with the limits and the
 // required share of previous members that are in force NOW (the global node's max_n / x_percent), the
